@@ -5,6 +5,7 @@
   invariant and the abstraction relation (C15, T1–T4).
 -/
 import RotoV.Lemmas.ListInv
+import RotoV.Lemmas.ListJoin
 
 namespace RotoV.ListM
 open RotoV
@@ -279,12 +280,12 @@ theorem good_toVec (inv : Inv sz s) (rel : Rel s t) (h : Nat) : Good sz s t (.to
     · simp only [specStep, vec_ok rel hs hl]; exact rel
   · exact good_of_bad (withLock_bad hs _) (by simp only [specStep, vec_bad rel hs]) inv rel
 
-theorem good_join (inv : Inv sz s) (rel : Rel s t) (h : Nat) : Good sz s t (.join h) := by
+theorem good_join (inv : Inv sz s) (rel : Rel s t) (h : Nat) (sep : Str) : Good sz s t (.join h sep) := by
   rcases slot_dec s h with ⟨a, hs⟩ | hs
   · have ⟨l, hl⟩ := inv.slot h a hs
     have hw := (inv.raw a l hl).1.wf
-    refine good_of_ok (o := .vals l.elems) (s' := s) ?_ ?_ ?_ ?_ (CapMono_refl s)
-    · exact withLock_read' inv hs hl (by simp only [readAll_eq hw])
+    refine good_of_ok (o := .str (joinSpec (l.elems.map elemStr) sep)) (s' := s) ?_ ?_ ?_ ?_ (CapMono_refl s)
+    · exact withLock_read' inv hs hl (by simp only [readAll_eq hw, join_body_eq])
     · simp only [specStep, vec_ok rel hs hl, eraseCap]
     · exact inv
     · simp only [specStep, vec_ok rel hs hl]; exact rel
@@ -1319,7 +1320,7 @@ theorem good_step (inv : Inv sz s) (rel : Rel s t) (op : Op) : Good sz s t op :=
   | eq a b typed => exact good_eq inv rel a b typed
   | toVec h => exact good_toVec inv rel h
   | iter h => exact good_iter inv rel h
-  | join h => exact good_join inv rel h
+  | join h sep => exact good_join inv rel h sep
 
 
 end ops
